@@ -27,7 +27,7 @@ theorem C07_roundtrip_partial {W : Type} (S : ServerEnv) (K : ClientEnv) (c : Co
     (dom : Val → Prop) (law : CodecLaw c norm dom) (R : Render) (kind : CallKind) (e : Exc) (tb : Val)
     (hcontent : Content norm dom e tb)
     (hres : resolves K.names e.cls = some e.cls)
-    (hctor : K.ctor e.cls e.args = .ok e.args)
+    (hctor : K.ctor e.cls e.args = .ok (e.cls, e.args))
     (hsend : Sendable (S.info e.cls)) :
     clientCall S K c R kind (.raise e) tb
       = (raisedBy K (withTraceback tb e), fateAfter (S.info e.cls) kind.isCallback) := by
@@ -51,7 +51,7 @@ theorem C07_roundtrip_batch_partial {W : Type} (S : ServerEnv) (K : ClientEnv) (
     (hcontent : Content norm dom e tb)
     (hbefore : ∀ v ∈ before, Lossless norm dom v ∧ hasClassDict v = false)
     (hres : resolves K.names e.cls = some e.cls)
-    (hctor : K.ctor e.cls e.args = .ok e.args)
+    (hctor : K.ctor e.cls e.args = .ok (e.cls, e.args))
     (hreg : wrapperTag ∉ K.names.registry)
     (hexc : (S.info e.cls).isException = true)
     (hstop : (K.info e.cls).isStopIter = false) :
@@ -111,7 +111,7 @@ theorem C07_fallback {W : Type} (S : ServerEnv) (K : ClientEnv) (c : Codec W) (n
     (htb : Lossless norm dom tb)
     (hun : c.dumps (excToDict (withTraceback tb e)) = none)
     (hres : resolves K.names qPyroError = some qPyroError)
-    (hctor : ∀ m, K.ctor qPyroError [.str m] = .ok [.str m])
+    (hctor : ∀ m, K.ctor qPyroError [.str m] = .ok (qPyroError, [.str m]))
     (hsend : Sendable (S.info e.cls)) :
     clientCall S K c R kind (.raise e) tb
         = (raisedBy K (fallbackExc R c.unserErr tb (withTraceback tb e)), fateAfter (S.info e.cls) kind.isCallback)
@@ -138,7 +138,7 @@ theorem C07_fallback_batch {W : Type} (S : ServerEnv) (K : ClientEnv) (c : Codec
     (hun : c.dumps (excToDict (withTraceback tb e)) = none)
     (hbefore : ∀ v ∈ before, Lossless norm dom v ∧ hasClassDict v = false)
     (hres : resolves K.names qPyroError = some qPyroError)
-    (hctor : ∀ m, K.ctor qPyroError [.str m] = .ok [.str m])
+    (hctor : ∀ m, K.ctor qPyroError [.str m] = .ok (qPyroError, [.str m]))
     (hreg : wrapperTag ∉ K.names.registry)
     (hexc : (S.info e.cls).isException = true)
     (hstop : (K.info qPyroError).isStopIter = false) :
@@ -357,16 +357,16 @@ def whitelist : List Str := (Pyro.Gen.C07.classFlags.map Prod.fst).filter (fun q
     with the extracted class relations and name tables, round-trips through every lawful serializer library. -/
 def C07_roundtrip_Statement : Prop :=
   ∀ (W : Type) (c : Codec W) (norm : Val → Val) (dom : Val → Prop), CodecLaw c norm dom →
-  ∀ (R : Render) (ctor : Str → List Val → Except Exc (List Val)) (kind : CallKind) (e : Exc) (tb : Val),
-    e.cls ∈ whitelist → Content norm dom e tb → ctor e.cls e.args = .ok e.args →
+  ∀ (R : Render) (ctor : Str → List Val → Except Exc (Str × List Val)) (kind : CallKind) (e : Exc) (tb : Val),
+    e.cls ∈ whitelist → Content norm dom e tb → ctor e.cls e.args = .ok (e.cls, e.args) →
     (clientCall genServerEnv (genClientEnv ctor) c R kind (.raise e) tb).1.outcome = .raised (withTraceback tb e)
 
 /-- the same for a batch member -/
 def C07_roundtrip_batch_Statement : Prop :=
   ∀ (W : Type) (c : Codec W) (norm : Val → Val) (dom : Val → Prop), CodecLaw c norm dom →
-  ∀ (R : Render) (ctor : Str → List Val → Except Exc (List Val)) (bf : Bool) (before : List Val) (after : List Step)
+  ∀ (R : Render) (ctor : Str → List Val → Except Exc (Str × List Val)) (bf : Bool) (before : List Val) (after : List Step)
     (e : Exc) (tb : Val),
-    e.cls ∈ whitelist → Content norm dom e tb → ctor e.cls e.args = .ok e.args →
+    e.cls ∈ whitelist → Content norm dom e tb → ctor e.cls e.args = .ok (e.cls, e.args) →
     (∀ v ∈ before, Lossless norm dom v ∧ hasClassDict v = false) →
     (clientBatch genServerEnv (genClientEnv ctor) c R bf (before.map .ret ++ .raise e :: after) tb).1.outcome
       = .raised (withTraceback tb e)
@@ -379,7 +379,7 @@ def isConnLost : Outcome → Bool
   | .connLost => true
   | _ => false
 
-def idCtor : Str → List Val → Except Exc (List Val) := fun _ a => .ok a
+def idCtor : Str → List Val → Except Exc (Str × List Val) := fun c a => .ok (c, a)
 def plainRender : Render := ⟨fun e => e.cls, fun q => q⟩
 def tbVal : Val := .list [.str (cs "Traceback (most recent call last):")]
 
@@ -546,9 +546,9 @@ theorem C07_gen_client_shape :
     class that is an `Exception` and no CommunicationError other than SerializeError round-trips in every single-call
     kind through every lawful serializer library. -/
 theorem C07_roundtrip_whitelisted {W : Type} (c : Codec W) (norm : Val → Val) (dom : Val → Prop)
-    (law : CodecLaw c norm dom) (R : Render) (ctor : Str → List Val → Except Exc (List Val)) (kind : CallKind)
+    (law : CodecLaw c norm dom) (R : Render) (ctor : Str → List Val → Except Exc (Str × List Val)) (kind : CallKind)
     (e : Exc) (tb : Val) (hw : e.cls ∈ whitelist) (hcontent : Content norm dom e tb)
-    (hctor : ctor e.cls e.args = .ok e.args) (hsend : Sendable (genInfo e.cls)) :
+    (hctor : ctor e.cls e.args = .ok (e.cls, e.args)) (hsend : Sendable (genInfo e.cls)) :
     clientCall genServerEnv (genClientEnv ctor) c R kind (.raise e) tb
       = (raisedBy (genClientEnv ctor) (withTraceback tb e), fateAfter (genInfo e.cls) kind.isCallback) :=
   C07_roundtrip_partial genServerEnv (genClientEnv ctor) c norm dom law R kind e tb hcontent
@@ -594,7 +594,7 @@ theorem exampleContent (seq : Bool) : Content (relist seq) (fun v => hasObj v = 
 /-- the hypotheses of `C07_roundtrip_whitelisted` hold for a ValueError with three arguments and two attributes,
     for the json-like codec (tuples come back as lists) -/
 example : exampleExc.cls ∈ whitelist ∧ Sendable (genInfo exampleExc.cls)
-    ∧ idCtor exampleExc.cls exampleExc.args = .ok exampleExc.args :=
+    ∧ idCtor exampleExc.cls exampleExc.args = .ok (exampleExc.cls, exampleExc.args) :=
   ⟨by decide +kernel, ⟨by decide +kernel, by decide +kernel, Or.inr (by decide +kernel)⟩, rfl⟩
 
 /-- … and the conclusion is the non-trivial one: the caller raises a ValueError with three arguments and *three*
